@@ -194,6 +194,64 @@ def genSeqStages (fromFile mods : Bool) (out : String) (chunks : List String) : 
   ++ [.openDirect "open" out, .compute "json.dump"]
   ++ chunks.map (Stage.writeDirect "file_handle.write" out)
 
+/-! ### the call sequence of the SOURCE against the stage lists
+
+`Generated/OutputTables.lean` (translator `harness/tables/output.py`) lists, for each of the three programs,
+every call of the function body in source order as `(depth, callee, benign)` — private helpers of the same
+module expanded in place at `depth + 1`, `benign` = builtins other than `open`, logging, housekeeping
+methods of containers and strings.  The functions below compare such a table with a stage list. -/
+
+/-- `(depth, callee, benign, aliases)`; `aliases` = the callee and its dotted suffixes
+(`vermouth.gmx.gro.write_gro`, `gmx.gro.write_gro`, `gro.write_gro`, `write_gro`), computed by the translator so
+that the comparison below needs string EQUALITY only -/
+abbrev CallRow := Nat × String × Bool × List String
+
+def CallRow.name (r : CallRow) : String := r.2.1
+def CallRow.benign (r : CallRow) : Bool := r.2.2.1
+def CallRow.aliases (r : CallRow) : List String := r.2.2.2
+
+/-- the names under which the stage `label` may appear in the source: the label itself; the one stage whose
+receiver is a loop variable of unknown type (`for molecule in topology.molecules: molecule.split_residue(…)`)
+also as `?.split_residue` -/
+def sourceNames (label : String) : List String :=
+  if label == "MetaMolecule.split_residue" then [label, "?.split_residue"] else [label]
+
+/-- does the source call `r` stand for the stage label `label`?  Equal, or the label reached through a
+longer module path (`vermouth.gmx.gro.write_gro` for `write_gro`). -/
+def matchesLabel (label : String) (r : CallRow) : Bool :=
+  (sourceNames label).any (fun n => r.aliases.contains n)
+
+/-- index of the first call of the source that stands for `label` -/
+def findCall (calls : List CallRow) (label : String) : Option Nat :=
+  calls.findIdx? (matchesLabel label)
+
+def orderedFrom (calls : List CallRow) : Nat → List String → Bool
+  | _, [] => true
+  | lo, l :: rest =>
+    match findCall calls l with
+    | none => orderedFrom calls lo rest          -- not a call of this module (or renamed): no claim
+    | some i => decide (lo ≤ i) && orderedFrom calls (i + 1) rest
+
+/-- the stage labels that occur in the source occur there in the order of the stage list -/
+def orderConsistent (labels : List String) (calls : List CallRow) : Bool := orderedFrom calls 0 labels
+
+/-- index of the last call of the source that stands for `label` -/
+def lastCall (calls : List CallRow) (label : String) : Option Nat :=
+  (calls.zipIdx.filter (fun r => matchesLabel label r.1)).getLast?.map (·.2)
+
+/-- `label` is called, and every call after its last call is benign (no stage follows it) -/
+def quietAfter (calls : List CallRow) (label : String) : Bool :=
+  match lastCall calls label with
+  | none => false
+  | some i => (calls.drop (i + 1)).all CallRow.benign
+
+/-- the non-benign calls of the source that no label of `labels` stands for (what a stage list does not
+name): the harness puts a crash point on each of them that it can reach -/
+def unnamedCalls (labels : List String) (calls : List CallRow) : List String :=
+  (calls.filter (fun r => !r.benign && !(labels.any (fun l => matchesLabel l r)))).map CallRow.name
+
+def stageLabels (stages : List Stage) : List String := stages.map Stage.label
+
 /-! ### specification side -/
 
 /-- "no output file is created, truncated or modified" -/
